@@ -199,6 +199,27 @@ func genProduce(prop string, seed uint64) *Plan {
 			faultsN = 0
 		}
 		movesN = int(g.rng(0, 8))
+		if g.pct(40) {
+			// pipeline mode: several batches of one partition in flight,
+			// a connection loss after the append, then a retriable error
+			// on a resend with the retry budget exhausted
+			k["nparts"], nparts = 1, 1
+			k["ntopics"], ntopics = 1, 1
+			k["linger_ms"] = 0
+			k["retries"] = g.rng(1, 2)
+			k["batch_max_bytes"] = g.pick(512, 1000012)
+			weights["sleep"] = 4
+			nactors = int(g.rng(2, 4))
+			faultsN = 0
+			base := int(g.rng(2, 12))
+			g.fault(Fault{Kind: g.pickS("kill_resp", "kill_resp", "stall_resp"), Broker: -1, Key: 0, Nth: base, DurMs: g.rng(3000, 9000)})
+			for i := 0; i < int(g.rng(1, 4)); i++ {
+				g.fault(Fault{Kind: "err_noproc", Broker: -1, Key: 0, Nth: base + int(g.rng(1, 8)), Code: int16(g.pick(ErrNotLeader, ErrNotEnoughReplicas, ErrRequestTimedOut, ErrKafkaStorageError))})
+			}
+			if g.pct(50) {
+				g.fault(Fault{Kind: "kill_resp", Broker: -1, Key: 0, Nth: base + int(g.rng(1, 6))})
+			}
+		}
 	case "C03":
 		k["max_buf_recs"] = g.pick(1, 1, 2, 3, 5)
 		if g.pct(40) {
